@@ -449,4 +449,239 @@ theorem tok_run {τ} (k : SKind) (data : Bytes) (h : Handler τ) (hsm : Small da
       simpa using this
     · simp [pendL]
 
+/-! ## `decodeString` over one token -/
+
+theorem not_hex_34 : isHex 34 = false := by decide
+
+theorem getu4L_six (x0 x1 x2 x3 x4 x5 : UInt8) (t : List UInt8) :
+    getu4L (x0 :: x1 :: x2 :: x3 :: x4 :: x5 :: t) =
+      if x0 == 92 && x1 == 117 && (isHex x2 && isHex x3 && isHex x4 && isHex x5) then some (hex4 x2 x3 x4 x5) else none := by
+  cases hg : getu4L (x0 :: x1 :: x2 :: x3 :: x4 :: x5 :: t) with
+  | some v =>
+    obtain ⟨a, b, c, d, rest, hl, ha, hb, hc, hd⟩ := getu4L_some _ v hg
+    injection hl with h0 hl; injection hl with h1 hl; injection hl with h2 hl; injection hl with h3 hl
+    injection hl with h4 hl; injection hl with h5 hl
+    subst h0 h1 h2 h3 h4 h5
+    simp only [getu4L, ha, hb, hc, hd, Bool.and_self, if_true] at hg
+    simp [ha, hb, hc, hd, hg]
+  | none =>
+    by_cases hc : (x0 == 92 && x1 == 117 && (isHex x2 && isHex x3 && isHex x4 && isHex x5)) = true
+    · simp only [Bool.and_eq_true, beq_iff_eq] at hc
+      obtain ⟨⟨h0, h1⟩, ⟨⟨h2, h3⟩, h4⟩, h5⟩ := hc
+      subst h0 h1
+      simp [getu4L, h2, h3, h4, h5] at hg
+    · simp [hc]
+
+/-- a closing quote within the first six bytes stops the look-ahead for a second escape -/
+theorem getu4L_append_quote (B X : List UInt8) : getu4L (B ++ 34 :: X) = getu4L B := by
+  have short : ∀ (B : List UInt8), B.length < 6 → getu4L (B ++ 34 :: X) = none := by
+    intro B hB
+    cases hg : getu4L (B ++ 34 :: X) with
+    | none => rfl
+    | some v =>
+      obtain ⟨a, b, c, d, rest, hl, ha, hb, hc, hd⟩ := getu4L_some _ v hg
+      match B, hB, hl with
+      | [], _, hl => injection hl with h0 _; exact absurd h0 (by decide)
+      | [_], _, hl => injection hl with _ hl; injection hl with h1 _; exact absurd h1 (by decide)
+      | [_, _], _, hl =>
+        injection hl with _ hl; injection hl with _ hl; injection hl with h2 _
+        subst h2; simp [not_hex_34] at ha
+      | [_, _, _], _, hl =>
+        injection hl with _ hl; injection hl with _ hl; injection hl with _ hl; injection hl with h2 _
+        subst h2; simp [not_hex_34] at hb
+      | [_, _, _, _], _, hl =>
+        injection hl with _ hl; injection hl with _ hl; injection hl with _ hl; injection hl with _ hl; injection hl with h2 _
+        subst h2; simp [not_hex_34] at hc
+      | [_, _, _, _, _], _, hl =>
+        injection hl with _ hl; injection hl with _ hl; injection hl with _ hl; injection hl with _ hl; injection hl with _ hl
+        injection hl with h2 _
+        subst h2; simp [not_hex_34] at hd
+      | _ :: _ :: _ :: _ :: _ :: _ :: _, hB, _ => simp at hB; omega
+  have short2 : ∀ (B : List UInt8), B.length < 6 → getu4L B = none := by
+    intro B hB
+    cases hg : getu4L B with
+    | none => rfl
+    | some v =>
+      obtain ⟨a, b, c, d, rest, hl, _⟩ := getu4L_some _ v hg
+      rw [hl] at hB
+      simp at hB
+      omega
+  by_cases hB : B.length < 6
+  · rw [short B hB, short2 B hB]
+  · match B, hB with
+    | x0 :: x1 :: x2 :: x3 :: x4 :: x5 :: t, _ =>
+      simp only [List.cons_append]
+      rw [getu4L_six, getu4L_six]
+    | [], hB => simp at hB
+    | [_], hB => simp at hB
+    | [_, _], hB => simp at hB
+    | [_, _, _], hB => simp at hB
+    | [_, _, _, _], hB => simp at hB
+    | [_, _, _, _, _], hB => simp at hB
+
+theorem uniStep_congr (a b c d : UInt8) (r1 r2 : List UInt8) (h : getu4L r1 = getu4L r2) :
+    uniStep a b c d r1 = uniStep a b c d r2 := by
+  simp only [uniStep, h]
+
+theorem dec_tok (l T out l'' B X : List UInt8) (ht : tokSpec l = some (T, out, l'')) (hl'' : l'' = B ++ 34 :: X) (F : Nat) :
+    decodeString (F + 1) (T ++ B) = out ++ decodeString F B := by
+  cases l with
+  | nil => simp [tokSpec] at ht
+  | cons x l' =>
+    simp only [tokSpec] at ht
+    split at ht
+    · next hx =>
+      cases l' with
+      | nil => simp at ht
+      | cons e t2 =>
+        simp only [] at ht
+        split at ht
+        · -- unicode escape
+          match t2, ht with
+          | a :: b :: c :: d :: rest, ht =>
+            simp only [uSpec] at ht
+            split at ht
+            · injection ht with ht; injection ht with hT ht; injection ht with hout hdrop
+              subst hT hout
+              have hrest : rest = rest.take ((uniStep a b c d rest).2 - 6) ++ (B ++ 34 :: X) := by
+                rw [← hl'', ← hdrop, List.take_append_drop]
+              have hg : getu4L (rest.take ((uniStep a b c d rest).2 - 6) ++ B) = getu4L rest := by
+                rcases uniStep_consumed a b c d rest with h6 | ⟨h12, v, hv⟩
+                · rw [h6] at hrest ⊢
+                  simp only [Nat.sub_self, List.take_zero, List.nil_append] at hrest ⊢
+                  rw [hrest, getu4L_append_quote]
+                · obtain ⟨a2, b2, c2, d2, rest5, hr5, _, _, _, _⟩ := getu4L_some rest v hv
+                  rw [h12, hr5]
+                  simp [getu4L]
+              have hcongr := uniStep_congr a b c d _ _ hg
+              simp only [List.cons_append]
+              rw [decodeString_u, hcongr]
+              congr 2
+              rcases uniStep_consumed a b c d rest with h6 | ⟨h12, v, hv⟩
+              · rw [h6]; simp
+              · obtain ⟨a2, b2, c2, d2, rest5, hr5, _, _, _, _⟩ := getu4L_some rest v hv
+                rw [h12, hr5]; simp
+            · cases ht
+          | [], ht => simp [uSpec] at ht
+          | [_], ht => simp [uSpec] at ht
+          | [_, _], ht => simp [uSpec] at ht
+          | [_, _, _], ht => simp [uSpec] at ht
+        · next he =>
+          split at ht
+          · injection ht with ht; injection ht with hT ht; injection ht with hout _
+            subst hT hout
+            have hx' : x = 92 := by simpa using hx
+            subst hx'
+            have he' : e ≠ 117 := by simpa using he
+            simp only [List.cons_append, List.nil_append]
+            rw [decodeString_esc F e B he']
+          · cases ht
+    · next hx =>
+      injection ht with ht; injection ht with hT ht; injection ht with hout _
+      subst hT hout
+      have hx' : x ≠ 92 := by simpa using hx
+      simp only [List.cons_append, List.nil_append]
+      rw [decodeString_plain F x B hx']
+
+theorem append_eof (pend : Option UInt8) : (smachine .append).eof (stOf pend) = [.errReturn .invalidString] := by
+  cases pend <;> rfl
+
+/-- **the `appendRemainderOfString` machine decodes a string body** -/
+theorem append_run {τ} (data : Bytes) (hsm : Small data) (h : Handler τ) :
+    ∀ (n : Nat) (l : List UInt8), l.length ≤ n → ∀ (pend : Option UInt8) (fuel p : Nat) (r : Regs τ), At data p l → r.p = p →
+      l.length + 1 ≤ fuel → PendOK data r pend → r.err = none →
+      match scanStringBody l with
+      | some rest => ∃ body, l = body ++ 34 :: rest ∧ ∀ F, body.length + 1 ≤ F →
+          (contL (smachine .append) data h fuel (stOf pend) [] r).kind = .ok ∧
+          (contL (smachine .append) data h fuel (stOf pend) [] r).p = ((data.size - rest.length : Nat) : Int) ∧
+          (contL (smachine .append) data h fuel (stOf pend) [] r).dst = r.dst ++ (pendL pend ++ decodeString F body).toArray
+      | none => IsErrS (contL (smachine .append) data h fuel (stOf pend) [] r) := by
+  intro n
+  induction n with
+  | zero =>
+    intro l hl pend fuel p r hat hp hf hpk herr
+    have : l = [] := List.length_eq_zero_iff.mp (by omega)
+    subst this
+    simp only [scanStringBody]
+    rw [contL_nil (smachine .append) data h _ _ _ r p hp hat]
+    exact eof_err .append data h _ r (append_eof pend)
+  | succ n ih =>
+    intro l hl pend fuel p r hat hp hf hpk herr
+    cases l with
+    | nil =>
+      simp only [scanStringBody]
+      rw [contL_nil (smachine .append) data h _ _ _ r p hp hat]
+      exact eof_err .append data h _ r (append_eof pend)
+    | cons x l' =>
+      obtain ⟨hb, hlt, hat'⟩ := hat.cons_inv
+      have hb' : getByte data r.p = some x := by rw [hp]; exact hb
+      have hlen' := hat'.length
+      simp only [List.length_cons] at hl hf
+      by_cases h34 : x = 34
+      · subst h34
+        have hs : scanStringBody (34 :: l') = some l' := by simp [scanStringBody]
+        rw [hs]
+        refine ⟨[], rfl, ?_⟩
+        intro F _
+        obtain ⟨fuel, rfl⟩ : ∃ f, fuel = f + 1 := ⟨fuel - 1, by omega⟩
+        have hw : wrap64 (r.p + 1) = ((p + 1 : Nat) : Int) := by
+          rw [hp, wrap64_id] <;> (unfold Small at hsm; omega)
+        rw [contL_cons (smachine .append) data h _ _ _ r p 34 l' hp hat, loopL_succ (smachine .append) data h fuel _ [] r 34 hb', sstep_main]
+        simp only [beq_self_eq_true, if_true, exec_leave .append data h pend r hpk, hw]
+        have := done_finish data h fuel (p + 1) ({ r with dst := r.dst ++ (pendL pend).toArray, p := ((p + 1 : Nat) : Int) } : Regs τ) l' hat' rfl (by omega)
+        have hcl : (if (({ r with dst := r.dst ++ (pendL pend).toArray, p := ((p + 1 : Nat) : Int) } : Regs τ).p == (data.size : Int)) = true then
+              runEof data (smachine .append).hasField h ((smachine .append).eof .done) { r with dst := r.dst ++ (pendL pend).toArray, p := ((p + 1 : Nat) : Int) }
+            else loopL (smachine .append) data h fuel .done [] { r with dst := r.dst ++ (pendL pend).toArray, p := ((p + 1 : Nat) : Int) }) =
+            contL (smachine .append) data h fuel .done [] { r with dst := r.dst ++ (pendL pend).toArray, p := ((p + 1 : Nat) : Int) } := rfl
+        rw [hcl, this]
+        refine ⟨by simp [Regs.finish, herr], ?_, ?_⟩
+        · simp only [Regs.finish]; omega
+        · simp [Regs.finish, decodeString_nil]
+      · by_cases hc : x < 32
+        · have h92 : x ≠ 92 := by intro hh; subst hh; exact absurd hc (by decide)
+          rw [scanStringBody_plain x l' h34 h92]
+          simp only [hc, if_true]
+          obtain ⟨fuel, rfl⟩ : ∃ f, fuel = f + 1 := ⟨fuel - 1, by omega⟩
+          rw [contL_cons (smachine .append) data h _ _ _ r p x l' hp hat]
+          apply serr_stops .append data h fuel _ r x hb'
+          rw [sstep_main]
+          have h34' : (x == 34) = false := by simpa using h34
+          have h92' : (x == 92) = false := by simpa using h92
+          simp [h34', h92', hc]
+        · rw [scan_tok (x :: l') x l' rfl h34 hc]
+          have key := tok_run .append data h hsm x l' h34 hc pend fuel p r hat hp (by simp only [List.length_cons]; omega) hpk
+          cases hts : tokSpec (x :: l') with
+          | none =>
+            rw [hts] at key
+            exact key rfl
+          | some tr =>
+            obtain ⟨T, out, l''⟩ := tr
+            rw [hts] at key
+            simp only [] at key ⊢
+            obtain ⟨f2, pend2, r2, hf2, hat2, hp2, hpk2, herr2, hdst2, he2⟩ := key
+            obtain ⟨hsplit, hTne⟩ := tokSpec_split _ _ _ _ hts
+            have hTlen : 0 < T.length := List.length_pos_iff.mpr hTne
+            have hl2 : l''.length ≤ n := by
+              have := congrArg List.length hsplit
+              simp only [List.length_cons, List.length_append] at this
+              omega
+            have ih2 := ih l'' hl2 pend2 f2 (p + T.length) r2 hat2 hp2 hf2 hpk2 (by rw [herr2]; exact herr)
+            rw [he2]
+            cases hs2 : scanStringBody l'' with
+            | none => rw [hs2] at ih2; exact ih2
+            | some rest =>
+              rw [hs2] at ih2
+              simp only [] at ih2 ⊢
+              obtain ⟨body2, hb2, hres⟩ := ih2
+              refine ⟨T ++ body2, by rw [hsplit, hb2]; simp, ?_⟩
+              intro F hF
+              obtain ⟨F, rfl⟩ : ∃ f, F = f + 1 := ⟨F - 1, by simp only [List.length_append] at hF; omega⟩
+              obtain ⟨hk, hpp, hd⟩ := hres F (by simp only [List.length_append] at hF; omega)
+              refine ⟨hk, hpp, ?_⟩
+              rw [hd, dec_tok _ _ _ _ body2 rest hts hb2 F]
+              have : r2.dst ++ (pendL pend2 ++ decodeString F body2).toArray =
+                  (r2.dst ++ (pendL pend2).toArray) ++ (decodeString F body2).toArray := by simp
+              rw [this, hdst2]
+              simp
+
 end RJson.StrMachine
